@@ -68,6 +68,10 @@ def predict_tool(ctx, binp, cli, wd):
                 runs.append((mname, fl, [], st))
             for ws in (["D", "R"], ["H", "R"], ["R", "D", "H"], ["O", "D"]):
                 runs.append((mname, fl, ws, (["half", "plain", "long"], True)))
+        # a model that splits everywhere, filters whose character types differ between the original and the normalised spelling
+        # (dash-like characters become the Katakana prolonged sound mark)
+        for ws in (["T"], ["O"], ["T", "O"], ["K", "H"]):
+            runs.append(("eval", fl, ws, (["dash", "fullw", "half"], True)))
             extra = streams if not q else [st for k, st in enumerate(streams) if (k + len(runs)) % 2 == 0]
             for st in extra:
                 ws = rnd.sample(["D", "R", "H", "T", "K", "O", "G"], rnd.randint(0, 2))
@@ -127,7 +131,7 @@ def predict_tool(ctx, binp, cli, wd):
 
 def evaluate_tool(ctx, binp, cli, wd, models):
     q = ctx.quick
-    refs_plain = ["aあ あa", "a ああ a", "あ", "a1 -b", "ああa aあa1 あ"]
+    refs_plain = ["aあ あa", "a ああ a", "あ", "a1 -b", "ああa aあa1 あ", "a あ\u3000", "あ a\t", "ab\\ ", "\u00a0 a\u0085"]
     refs_tags = ["a/D あ/F/G", "あ/F/H a/E", "ａ/A/C あ/F/I"]
     runs = []
     for no_norm in (False, True):
